@@ -315,6 +315,9 @@ def run_kernel(ctx, ob, spec, rec):
                     conds = [("no panic: " + o.msg, allowed)]
                     if allowed.concrete and allowed.v:
                         rec["panics_allowed"] += 1
+                elif o.kind == "stop":
+                    n_ret += 1
+                    conds = spec.post_stop(inst, shape, inputs, o) if hasattr(spec, "post_stop") else []
                 else:
                     n_ret += 1
                     conds = spec.post(inst, shape, inputs, o.value, o.st)
@@ -426,6 +429,14 @@ def run(prop, obs, tier, seed, records, violations, known_hits, inconclusive):
                         rec.setdefault("diff_mismatch", []).append({"inputs": show(conc), "mirsym": (k, str(show(v))[:200]), "native": nat})
                 else:
                     # counterexample: does the real function violate the post-condition on these inputs?
+                    if nat is None and hasattr(spec, "api_check"):
+                        # under-constrained slice: the model must reproduce through the public API
+                        bad, what = spec.api_check(inst, shape, conc, label)
+                        if bad:
+                            reproduced.append((label, inst, shape, conc, what))
+                        else:
+                            unreproduced.append((label, conc, what))
+                        continue
                     if nat is None:
                         unreproduced.append((label, conc, "no native driver"))
                         continue
@@ -505,8 +516,13 @@ def write_replay_file(prop, ob, spec, inst, shape, conc, what):
     p = os.path.join(replay.OUT_DIR, f"{prop}_{re.sub(r'[^A-Za-z0-9_.]', '_', ob.id)}.txt")
     with open(p, "w") as f:
         f.write(f"# replay of a mirsym/z3 counterexample for property {prop}, obligation {ob.id}\n")
-        f.write(f"# function: {spec.fn_pattern}  instantiation: {_inst_name(inst)}  shape: {shape}\n")
-        f.write(f"# concrete inputs: {show(conc)}\n# observed on the real build (native driver, dev profile): {what}\n")
-        f.write("# native driver case line (VERIF_NATIVE_CASES format; run: cargo test --lib verif_native_driver in the replay tree):\n")
-        f.write(" ".join(["c0", nat[0]] + [str(t) for t in nat[1]]) + "\n")
+        f.write(f"# function: {spec.fn_path or spec.method}  instantiation: {_inst_name(inst)}  shape: {shape}\n")
+        f.write(f"# concrete inputs: {show(conc)}\n# observed on the real build (dev profile): {what}\n")
+        if nat:
+            f.write("# native driver case line (VERIF_NATIVE_CASES format; run: cargo test --lib verif_native_driver in the replay tree):\n")
+            f.write(" ".join(["c0", nat[0]] + [str(t) for t in nat[1]]) + "\n")
+        elif hasattr(spec, "api_spec"):
+            import json
+            f.write("# API-level scenario (VERIF_API_SPEC format; run: cargo test --test verif_api_replay in the replay tree):\n")
+            f.write(json.dumps(spec.api_spec(inst, shape, conc)) + "\n")
     return p
